@@ -5,7 +5,7 @@ from __future__ import annotations
 import random
 
 from .. import harness as H
-from ..sim import shim
+from ..sim import sched, shim
 
 SHARDS = {"quick": 8, "thorough": 16}
 META = {
@@ -132,6 +132,10 @@ def run(res, tier, seed, shard, nshards):
             for N in range(6):
                 for final in ("valid", "404", "bad-accept", "eof"):
                     jobs.append(("redir", st, L, N, final))
+    for B in (1024, 4096, 8192, 16384, 32768, 65536, 131072):
+        for off in (-1, 0, 1):
+            for hdr in ("Upgrade: websocket", "Connection: Upgrade", "Sec-WebSocket-Accept: @ACCEPT@"):
+                jobs.append(("longline", B, off, hdr))
     jobs.append(("redir-noloc", 302, 1, 3, "valid"))
     jobs.append(("redir-default-limit", 302, 3, None, "valid"))
     jobs.append(("redir-default-limit", 302, 4, None, "valid"))
@@ -139,7 +143,7 @@ def run(res, tier, seed, shard, nshards):
     variants = 1 if tier == "quick" else 4
     for v in range(variants):
         for off in range(0, 140):
-            for fault in ("eof", "timeout"):
+            for fault in ("eof", "timeout", "interrupt"):
                 jobs.append(("trunc", v, off, fault))
 
     def scen():
@@ -148,6 +152,8 @@ def run(res, tier, seed, shard, nshards):
                 continue
             if j[0] == "head":
                 head_case(res, W, rng)
+            elif j[0] == "longline":
+                longline_case(res, W, rng, j)
             elif j[0].startswith("redir"):
                 redirect_case(res, W, rng, j)
             else:
@@ -160,13 +166,18 @@ def attempt(W, url, use_create, opts):
     """-> (kind, ws_or_exc)"""
     try:
         if use_create:
-            w = W.create_connection(url, timeout=2, **opts)
+            try:
+                w = W.create_connection(url, timeout=2, **opts)
+            except KeyboardInterrupt as e:
+                return "raised", e, None
         else:
             w = W.WebSocket()
             w.settimeout(2)
             try:
                 w.connect(url, **opts)
             except BaseException as e:  # noqa
+                if isinstance(e, sched.SimAbort):
+                    raise
                 return "raised", e, w
         return "returned", None, w
     except Exception as e:  # noqa
@@ -340,6 +351,9 @@ def trunc_case(res, W, rng, j):
         p = H.HandshakePeer(conn, response=resp)
         if fault == "eof":
             p.on_open = lambda c: c.peer_close()
+        elif fault == "interrupt":
+            # the wait for the response is ended from outside (Ctrl-C / cancellation) at this byte offset
+            p.on_open = lambda c: c.peer_error(KeyboardInterrupt())
     net_ = H.make_net(on_conn)
     kind, exc, w = attempt(W, "ws://sim.test/", rng.random() < 0.5, {})
     full_len = net_.conns[0].full_len if net_.conns else 0
@@ -347,6 +361,41 @@ def trunc_case(res, W, rng, j):
     case = {"variant": variant, "offset": off, "fault": fault, "response_len": full_len}
     exp = "accept" if off >= full_len else "reject"
     check_outcome(res, W, exp, kind, exc, w, net_, case, "trunc", {"fault": fault})
+    if w is not None:
+        try:
+            w.shutdown()
+        except Exception:  # noqa
+            pass
+
+
+def longline_case(res, W, rng, j):
+    """a 101 response that lacks one required header but carries its text inside an over-long unrelated header line,
+    placed so that it begins exactly at (or next to) a power-of-two offset of that line: must be rejected"""
+    H.reset_process_state()
+    _, B, off, hdr = j
+    name = hdr.split(":")[0].lower()
+
+    def on_conn(conn):
+        def resp(req):
+            key = H.request_key(req) or ""
+            right = H.accept_for(key)
+            lines = ["HTTP/1.1 101 Switching Protocols"]
+            if name != "upgrade":
+                lines.append("Upgrade: websocket")
+            if name != "connection":
+                lines.append("Connection: Upgrade")
+            if name != "sec-websocket-accept":
+                lines.append(f"Sec-WebSocket-Accept: {right}")
+            prefix = "X-Trace: "
+            filler = "a" * (B + off - len(prefix))
+            lines.insert(2, prefix + filler + hdr.replace("@ACCEPT@", right))
+            return ("\r\n".join(lines) + "\r\n\r\n").encode()
+        H.HandshakePeer(conn, response=resp)
+    net_ = H.make_net(on_conn)
+    kind, exc, w = attempt(W, "ws://sim.test/", rng.random() < 0.5, {})
+    res.count("long_line_cases")
+    case = {"line_length_before_smuggled_header": B + off, "missing_header": name}
+    check_outcome(res, W, "reject", kind, exc, w, net_, case, "longline", {"deviation": "missing:" + name})
     if w is not None:
         try:
             w.shutdown()
